@@ -16,7 +16,7 @@ from concurrent.futures import ThreadPoolExecutor
 VERIF = os.path.dirname(os.path.dirname(os.path.abspath(__file__)))
 REPO = os.environ.get("VERIF_REPO", "/repo")
 COQ = os.path.join(VERIF, "coq")
-BUILD = os.path.join(VERIF, "build")
+BUILD = os.path.join(VERIF, "build" if REPO == "/repo" else "build/alt")
 HARNESS = os.path.join(VERIF, "harness")
 sys.path.insert(0, os.path.join(VERIF, "tools"))
 from properties import PROPS  # noqa: E402
@@ -146,15 +146,18 @@ def audit(prop):
 
 
 def build_harness():
-    shutil.copyfile(os.path.join(REPO, "go.sum"), os.path.join(HARNESS, "go.sum"))
-    gomod = os.path.join(HARNESS, "go.mod")
-    txt = open(gomod).read()
-    want = "replace connectrpc.com/vanguard => %s\n" % REPO
-    new = re.sub(r"replace connectrpc.com/vanguard => .*\n", want, txt)
-    if new != txt:
-        open(gomod, "w").write(new)
+    src = HARNESS
+    if REPO != "/repo":
+        # self-test against a scratch copy: never touch the committed go.mod
+        src = os.path.join(BUILD, "harness_src")
+        shutil.rmtree(src, ignore_errors=True)
+        shutil.copytree(HARNESS, src)
+        gomod = os.path.join(src, "go.mod")
+        txt = open(gomod).read()
+        open(gomod, "w").write(re.sub(r"replace connectrpc.com/vanguard => .*\n", "replace connectrpc.com/vanguard => %s\n" % REPO, txt))
+    shutil.copyfile(os.path.join(REPO, "go.sum"), os.path.join(src, "go.sum"))
     exe = os.path.join(BUILD, "harness")
-    p = run(["go", "build", "-tags", "verif", "-o", exe, "."], cwd=HARNESS, env=GOENV, timeout=1200)
+    p = run(["go", "build", "-tags", "verif", "-o", exe, "."], cwd=src, env=GOENV, timeout=1200)
     return p.returncode == 0, p.stderr[-4000:]
 
 
